@@ -13,7 +13,7 @@ namespace CanVerif.C05o
 open CanVerif CanVerif.Dbc CanVerif.Dbc.FileProofs
 
 theorem dbc_file_roundtrip_line_for_line (es : List WEcu) (hes : wfEcus es = true) (ts : List WTable) (hts : wfTables ts = true)
-    (ds : List DefLine) (hds : wfDefs ds = true) (dds : List DefDefLine) (hdds : ∀ d ∈ dds, wfDefDef d = true)
+    (ds : List DefLine) (hds : wfDefs ds = true) (dds : List DefDefLine) (hdds : wfDefaults ds dds = true)
     (ga : List (Str × Str)) (hga : wfAttrs (expectDefs ds dds) .global .global ga = true)
     (hea : ∀ e ∈ es, wfAttrs (expectDefs ds dds) .ecu (.ecu e.name) e.attrs = true)
     (ps : List (WFrame × (Nat × Bool))) (hwf : ∀ p ∈ ps, p.1.wf p.2 = true) (hdist : ps.Pairwise fun p q => p.2 ≠ q.2)
